@@ -12,6 +12,7 @@ import Poulpy.Lemmas.CnvAssign
 import Poulpy.Lemmas.ValBridge
 import Poulpy.Lemmas.AccAdd
 import Poulpy.Lemmas.EpTotal
+import Poulpy.Lemmas.HeadRoom
 import Poulpy.Props.C02
 import Poulpy.Props.C07
 
@@ -1241,6 +1242,70 @@ example (σ : ℕ → Ks.R 1) : ∃ res, relinearize true 1 4 3 ([[[1], [0]], [[
     (by decide) (by decide) rfl (by decide) (by decide) (Ks.entry_length exTsk.toPMat 1 rfl (by decide +kernel)) (by decide)
     (by intro i _ r _; exact (add_sub_cancel _ _).symm)
   exact ⟨res, h1, h2⟩
+/-! ## Head-room derived from digit bounds; admissible shapes -/
+
+/-- **`relin_headroom`** — head-room of the relinearisation product derived from digit bounds: `|pair columns| ≤ Da`, `|tensor key| ≤ Dm` ⇒
+every coefficient of the executed `gglwe_product_dft` is bounded by `dsize·(pairs·dnum)·N·Da·Dm`. -/
+theorem relin_headroom (N : Nat) (a : List Col) (g : GGLWE) (res0 : List Col) (Da Dm : Int) (hDa : 0 ≤ Da) (hDm : 0 ≤ Dm)
+    (hd : 1 ≤ g.dsize) (hn : g.n = N)
+    (ha : shapeOk g.n g.colsIn (a.getD 0 []).length a = true) (h0 : shapeOk g.n g.colsOut g.size res0 = true)
+    (hab : ∀ c ∈ a, ∀ l ∈ c, ∀ x ∈ l, |x| ≤ Da)
+    (hgb : ∀ row ∈ g.cells, ∀ c ∈ row, ∀ l ∈ c, ∀ x ∈ l, |x| ≤ Dm) :
+    ∀ c ∈ Core.gglweProductDft a g g.size res0, ∀ l ∈ c, ∀ x ∈ l, |x| ≤ prodBound g.dsize g.colsIn g.dnum N Da Dm :=
+  gglweProductDft_bound N a g res0 Da Dm hDa hDm hd hn ha h0 hab hgb
+
+example : ∀ c ∈ Core.gglweProductDft [[[2], [1]]] exTsk exTsk.size (zeroCols 1 2 3), ∀ l ∈ c, ∀ x ∈ l, |x| ≤ prodBound 2 1 1 1 2 1 :=
+  relin_headroom 1 [[[2], [1]]] exTsk _ 2 1 (by decide) (by decide) (by decide) rfl (by decide) (by decide) (by decide) (by decide +kernel)
+
+/-- **`mul_const_headroom`** — `|a| ≤ Da`, `|cst| ≤ Db` ⇒ every coefficient of `cnv_by_const_apply` is bounded by `|cst|·Db·Da` -/
+theorem mul_const_headroom (n S hi : Nat) (x : Col) (b : List Int) (Da Db : Int) (hDa : 0 ≤ Da) (hDb : 0 ≤ Db)
+    (hx : ∀ l ∈ x, ∀ v ∈ l, |v| ≤ Da) (hb : ∀ c ∈ b, |c| ≤ Db) :
+    ∀ l ∈ cnvByConstCol n S hi x b, ∀ v ∈ l, |v| ≤ (b.length : Int) * (Db * Da) :=
+  cnvByConstCol_bound n S hi x b Da Db hDa hDb hx hb
+
+example : ∀ l ∈ cnvByConstCol 1 3 0 [[3], [5]] [2, 1], ∀ v ∈ l, |v| ≤ ((([2, 1] : List Int).length : Nat) : Int) * (2 * 5) :=
+  mul_const_headroom 1 3 0 [[3], [5]] [2, 1] 5 2 (by decide) (by decide) (by decide) (by decide)
+
+/-- **`mul_plain_headroom`** — bivariate convolution (`glwe_mul_plain`, every diagonal / pairwise product of the tensor forms):
+`|x| ≤ Da`, `|y| ≤ Db` ⇒ every coefficient of `cnv_apply_dft` is bounded by `|y|·N·Da·Db` -/
+theorem mul_plain_headroom (n S hi : Nat) (x y : Col) (Da Db : Int) (hDa : 0 ≤ Da) (hDb : 0 ≤ Db)
+    (hx : ∀ l ∈ x, l.length ≤ n ∧ ∀ v ∈ l, |v| ≤ Da) (hy : ∀ l ∈ y, ∀ v ∈ l, |v| ≤ Db) :
+    ∀ l ∈ Hal.cnvApplyCol n S hi x y, ∀ v ∈ l, |v| ≤ (y.length : Int) * ((n : Int) * Da * Db) :=
+  cnvApplyCol_bound n S hi x y Da Db hDa hDb hx hy
+
+example : ∀ l ∈ Hal.cnvApplyCol 1 3 0 [[3], [5]] [[2]], ∀ v ∈ l, |v| ≤ (((([[2]] : Col)).length : Nat) : Int) * (((1 : Nat) : Int) * 5 * 2) :=
+  mul_plain_headroom 1 3 0 [[3], [5]] [[2]] 5 2 (by decide) (by decide) (by decide) (by decide)
+
+/-- the crate's parameter sets are admissible for the convolutions (balanced digits `2^(b−1)`): `b = 18`, `N = 4096`, 3 limbs and `b = 13`,
+`N = 1024`, 4 limbs on i64; CKKS `b = 52`, `N = 4096`, 16 limbs on i128 only -/
+example : cnvAdmissible 64 3 4096 (2 ^ 17) (2 ^ 17) ∧ cnvAdmissible 64 4 1024 (2 ^ 12) (2 ^ 12) ∧
+    cnvAdmissible 128 16 4096 (2 ^ 51) (2 ^ 51) ∧ ¬ cnvAdmissible 64 16 4096 (2 ^ 51) (2 ^ 51) := by decide
+
+/-- **`mul_const_decrypts_of_digits`** — `mul_const_decrypts` with the head-room derived from `|a| ≤ Da`, `|cst| ≤ Db` and the explicit
+admissible-shape inequality `|cst|·Da·Db + 8 ≤ 2^62 / 2^126` (`Core.cnvAdmissible` with `N := 1`). -/
+theorem mul_const_decrypts_of_digits {N : Nat} (hN : 0 < N) (big128 : Bool) (rb rs off b sa : Nat) (a0 : Col) (as : List Col) (cst : List Int)
+    (Da Db : Int)
+    (h0 : a0.length = sa) (hall : ∀ x ∈ as, x.length = sa) (hx0 : ∀ l ∈ a0, l.length = N) (hxs : ∀ x ∈ as, ∀ l ∈ x, l.length = N)
+    (hsa : 1 ≤ sa) (hsb : 1 ≤ cst.length) (hhi : (cnvOffsetSplit b off).1 ≤ sa + cst.length - 1)
+    (hrb1 : 1 ≤ rb) (hrb : rb ≤ 62) (hb1 : 1 ≤ b) (hb : b ≤ 62) (hDa : 0 ≤ Da) (hDb : 0 ≤ Db)
+    (hadm : cnvAdmissible (bitsOf big128) cst.length 1 Da Db)
+    (hab : ∀ x ∈ a0 :: as, ∀ l ∈ x, ∀ v ∈ l, |v| ≤ Da) (hcb : ∀ c ∈ cst, |c| ≤ Db)
+    (s : List Poly) :
+    ∃ res, mulConst false big128 N rb rs off b (a0 :: as) cst = some res ∧ C02L.GWF N (Ks.mkCt rb N res) ∧
+      (∀ c ∈ res, ∀ l ∈ c, ∀ x ∈ l, |x| ≤ 2 ^ rb - 1) := by
+  have hK : (0 : Int) ≤ (cst.length : Int) * (Db * Da) := by positivity
+  unfold cnvAdmissible at hadm
+  obtain ⟨res, h1, h2, h3, _⟩ := mul_const_decrypts hN big128 rb rs off b sa a0 as cst ((cst.length : Int) * (Db * Da))
+    h0 hall hx0 hxs hsa hsb hhi hrb1 hrb hb1 hb hK (by push_cast at hadm ⊢; linarith)
+    (fun x hx => mul_const_headroom N _ _ x cst Da Db hDa hDb (hab x hx) hcb) s
+  exact ⟨res, h1, h2, h3⟩
+
+example (s : List Poly) : ∃ res, mulConst false false 1 4 2 4 4 ((([[3], [0]] : Col)) :: [[[1], [0]]]) [2] = some res ∧ C02L.GWF 1 (Ks.mkCt 4 1 res) := by
+  obtain ⟨res, h1, h2, _⟩ := mul_const_decrypts_of_digits (N := 1) (by decide) false 4 2 4 4 2 [[3], [0]] [[[1], [0]]] [2] 3 2
+    rfl (by decide) (by decide) (by decide) (by decide) (by decide) (by decide) (by decide) (by decide) (by decide) (by decide) (by decide) (by decide)
+    (by decide) (by decide) (by decide) s
+  exact ⟨res, h1, h2⟩
+
 /-
 NOT PROVED (checked by correspondence on every generated case, see docs/C05.md):
 * `tensorSquare_eq_tensorApply` and `tensorApply_acc_eq_add` for ranks ≥ 3 (the property's quantifier is rank 1..2;
